@@ -354,13 +354,34 @@ def check_merge(case, rec):
     for b, d in zip(befores, dfs):
         if not b.equals(d) or list(b.columns) != list(d.columns):
             raise Violation("multimerge-mutates-input", "an input table changed")
-    keys = sorted(inter if how == "inner" else union)
-    model = {}
-    for ti, t in enumerate(tables):
+    # reference model: fold the tables from the left with a dict-based join (for outer / inner the order does not matter)
+    acc = {k: {} for k in tables[0]["keys"]}
+    for cname, vals in tables[0]["cols"].items():
+        oname = f"{cname}_{suffixes[0]}" if suffixes else cname
+        for k, v in zip(tables[0]["keys"], vals):
+            acc[k][oname] = v
+    allcols = [f"{c}_{suffixes[0]}" if suffixes else c for c in tables[0]["cols"]]
+    for ti, t in enumerate(tables[1:], start=1):
+        right = {k: {} for k in t["keys"]}
+        rcols = []
         for cname, vals in t["cols"].items():
             oname = f"{cname}_{suffixes[ti]}" if suffixes else cname
-            col = dict(zip(t["keys"], vals))
-            model[oname] = {k: col.get(k) for k in keys}
+            rcols.append(oname)
+            for k, v in zip(t["keys"], vals):
+                right[k][oname] = v
+        h = how or "outer"
+        if h == "outer":
+            ks = list(dict.fromkeys(list(acc) + list(right)))
+        elif h == "inner":
+            ks = [k for k in acc if k in right]
+        elif h == "left":
+            ks = list(acc)
+        else:
+            ks = list(right)
+        acc = {k: {**acc.get(k, {}), **right.get(k, {})} for k in ks}
+        allcols += rcols
+    keys = sorted(acc)
+    model = {c: {k: acc[k].get(c) for k in keys} for c in allcols}
     if (not on_index) and (not suffixes):
         if "key" not in out.columns:
             raise Violation("multimerge-key-column", f"key column missing from {list(out.columns)}")
@@ -370,7 +391,7 @@ def check_merge(case, rec):
         got_keys = list(out.index)
         body = out
     if sorted(got_keys) != keys:
-        raise Violation("multimerge-keys", f"keys {sorted(got_keys)} != {'intersection' if how == 'inner' else 'union'} {keys}")
+        raise Violation("multimerge-keys", f"how={how or 'outer'}: keys {sorted(got_keys)} != {keys}")
     if sorted(body.columns) != sorted(model):
         raise Violation("multimerge-columns", f"columns {sorted(body.columns)} != {sorted(model)}")
     for cname in model:
@@ -402,7 +423,7 @@ def merge_case(draw, tier="quick"):
     if suffixes:
         case["suffixes"] = [f"s{i}" for i in range(nt)]
     if draw(st.booleans()):
-        case["how"] = draw(st.sampled_from(["inner", "outer"]))
+        case["how"] = draw(st.sampled_from(["inner", "outer", "left", "left", "right"]))
     return case
 
 
